@@ -120,10 +120,7 @@ func (s *State) hashUF(name string, v Value) Value {
 
 // asmCall executes body-less functions that have an assembly implementation in the repository.
 func (s *State) asmCall(fn *ssa.Function, args []Value) (Value, bool) {
-	if fn.Pkg != nil && fn.Pkg.Pkg.Path() == repoModule+"/z/simd" && fn.Name() == "Search" {
-		return s.asmSearch(args), true
-	}
-	return nil, false
+	return s.asmExec(fn, args)
 }
 
 var _ = types.Typ
